@@ -30,7 +30,10 @@ def rec_dtype(fields):
     return np.dtype([('f%d' % i, DTYPES[f]) for i, f in enumerate(fields)])
 
 
-class Real(object):
+from real_packed import PackedOps  # noqa: E402
+
+
+class Real(PackedOps):
     """A pool of real maps driven by protocol lines."""
 
     def __init__(self):
@@ -98,7 +101,7 @@ class Real(object):
         """Returns (observation, line_for_model)."""
         toks = line.split()
         op, (pos, kv) = toks[0], parse_args(toks[1:])
-        fn = getattr(self, 'op_' + op, None)
+        fn = getattr(self, 'op_' + op.replace('.', '_'), None)
         if fn is None:
             raise BadOp(line)
         try:
@@ -116,6 +119,7 @@ class Real(object):
     # ---- operations ----------------------------------------------------
     def op_reset(self, pos, kv):
         self.pool = {}
+        self.packed_reset()
         return 'ok'
 
     def op_drop(self, pos, kv):
